@@ -189,5 +189,7 @@ def run(repo: Repo, tier: str) -> Report:
     written = {sig[-1][0] for sig in k.sigs}
     rep.ob("R-DTYPE-DECL", AFILE, s.where(), "declared output dtype == dtype the kernel writes", decl is not None and set(decl) == written,
            f"output_dtypes = {decl}, kernel signature output = {sorted(written)}", "lroo output_dtypes", line=s.line)
+    from ..rules import r_stateless
+    r_stateless(rep, repo, [('PixelAlgorithms', 'croo'), ('PixelAlgorithms', 'lroo')])
     rep.floor("C18 obligations", len(rep.obls), 20)
     return rep
